@@ -52,6 +52,9 @@ type pair struct {
 	oldSrc string // grol source of the session that produced the previous state file
 	newSrc string // grol source of the session whose auto-save is interrupted (run after AutoLoad of the old file)
 	extras []extraFile
+	// set for a session of a multi-save history: signature context ("after-<previous session's point>") and replay string
+	histCtx    string
+	replayCase string
 	// filled by prepare
 	oldBytes  []byte
 	oldChunks [][]byte
@@ -372,6 +375,8 @@ func classify(o observation, p *pair) string {
 		return "empty"
 	case bytes.HasPrefix(p.newBytes, o.gr):
 		return "truncated-new"
+	case len(p.newBytes) > 0 && bytes.HasPrefix(o.gr, p.newBytes):
+		return "new-plus-stale-tail" // the complete new state followed by bytes that belong to no committed state
 	case p.hasOld && bytes.HasPrefix(p.oldBytes, o.gr):
 		return "truncated-old"
 	}
@@ -389,6 +394,12 @@ func (h *harness) check(p *pair, desc, dir string, r childResult, modelScen, kin
 	o := h.observe(dir, p)
 	replay := p.name + " " + desc
 	point := pointOf(desc)
+	if p.replayCase != "" {
+		replay = p.replayCase
+	}
+	if p.histCtx != "" {
+		point = "history:" + point + "-" + p.histCtx
+	}
 	cls := classify(o, p)
 	_, done := r.lines["DONE"]
 	// 1. the state file is the complete old or the complete new version
@@ -483,7 +494,7 @@ func (h *harness) check(p *pair, desc, dir string, r childResult, modelScen, kin
 //   fail2:write#k[:n]        same, and AutoSave is called a second time
 //   nofile                   setrlimit(NOFILE): CreateTemp fails      (hook-free)
 //   fsize:<L>                setrlimit(FSIZE, L): the write reaching byte L fails     (hook-free)
-//   unchanged | disabled | readonly
+//   unchanged | disabled | readonly | none
 //   strace-kill:<syscalls>:<k>     strace -e inject=<syscalls>:signal=KILL:when=k      (hook-free)
 //   strace-err:<syscalls>:<errno>:<k>   strace -e inject=<syscalls>:error=<errno>:when=k
 //   timed:<microseconds>     SIGKILL from the parent that long after the child announced the save
@@ -493,10 +504,18 @@ func (h *harness) scenario(p *pair, desc string) {
 	}
 	dir := h.populate(p)
 	defer os.RemoveAll(dir)
+	h.scenarioIn(p, desc, dir)
+}
+
+// scenarioIn runs the session of p with scenario desc in an existing directory (one session of a history)
+func (h *harness) scenarioIn(p *pair, desc, dir string) {
 	n := len(p.newChunks)
 	src := Hx([]byte(p.newSrc))
 	kind, arg, _ := strings.Cut(desc, ":")
 	switch kind {
+	case "none": // an undisturbed session
+		r := h.run(nil, nil, -1, "session", dir, src, "record")
+		h.check(p, desc, dir, r, "NONE", "none")
 	case "crash":
 		name, rest, _ := strings.Cut(arg, "#")
 		var k, torn int
@@ -586,6 +605,183 @@ func (h *harness) checkSkip(p *pair, desc, dir string, r childResult, scen, kind
 		q.newChunks, q.newBytes = p.oldChunks, p.oldBytes
 	}
 	h.check(&q, desc, dir, r, scen, kind)
+}
+
+// ---- multi-save histories: 2..4 sessions in ONE directory; some saves are interrupted or fail, later ones complete.
+// Oracle after every session (through check): .gr is byte-equal to the last COMMITTED state - after a completed save
+// that is exactly what SaveGlobals writes for the state of that session, computed in a clean control directory holding
+// only the committed file (so nothing of an aborted save, no residue of a stale temporary file, can be part of it) -,
+// stale temporary files of earlier aborted saves are not touched, and a restart auto-loads exactly the committed globals.
+// A session is "<hex source>/<scenario>"; scenario templates use MID / LAST (write index) and HALF / MOST (byte count),
+// resolved against the chunks of that session's state.
+type histSession struct{ src, scen string }
+
+func resolveScen(t string, chunks [][]byte) string {
+	n := len(chunks)
+	mid, last := (n+1)/2, n
+	if mid < 1 {
+		mid = 1
+	}
+	total := 0
+	for _, ch := range chunks {
+		total += len(ch)
+	}
+	widx := mid
+	if strings.Contains(t, "#LAST") {
+		widx = last
+	}
+	half := 0
+	if widx >= 1 && widx <= n {
+		half = len(chunks[widx-1]) / 2
+	}
+	if strings.HasPrefix(t, "fsize:") {
+		t = strings.Replace(t, "HALF", strconv.Itoa(total/2), 1)
+		t = strings.Replace(t, "MOST", strconv.Itoa(total-1), 1)
+		return t
+	}
+	t = strings.Replace(t, "MID", strconv.Itoa(mid), 1)
+	t = strings.Replace(t, "LAST", strconv.Itoa(last), 1)
+	t = strings.Replace(t, "HALF", strconv.Itoa(half), 1)
+	// a literal write index beyond this state's number of writes means its last write
+	if pre, rest, ok := strings.Cut(t, "write#"); ok && n > 0 {
+		ks, tail, hasTail := strings.Cut(rest, ":")
+		if k, err := strconv.Atoi(ks); err == nil && k > n {
+			t = pre + "write#" + strconv.Itoa(n)
+			if hasTail {
+				t += ":" + tail
+			}
+		}
+	}
+	return t
+}
+
+func histSpec(ss []histSession) string {
+	parts := make([]string, len(ss))
+	for i, x := range ss {
+		parts[i] = Hx([]byte(x.src)) + "/" + x.scen
+	}
+	return "history " + strings.Join(parts, ";")
+}
+
+func parseHist(spec string) []histSession {
+	var out []histSession
+	for _, part := range strings.Split(strings.TrimPrefix(spec, "history "), ";") {
+		hs, sc, ok := strings.Cut(part, "/")
+		if !ok {
+			return nil
+		}
+		out = append(out, histSession{string(Unhx(hs)), sc})
+	}
+	return out
+}
+
+func (h *harness) history(name string, sessions []histSession) {
+	c := h.c
+	dir := h.mkdir()
+	defer os.RemoveAll(dir)
+	var committed []byte
+	var committedChunks [][]byte
+	hasCommitted := false
+	ctx := "after-none"
+	var done []histSession
+	for i, ss := range sessions {
+		// what this session's state serialises to, from a clean control directory holding only the committed file
+		ctl := h.mkdir()
+		if hasCommitted {
+			if err := os.WriteFile(filepath.Join(ctl, stateFile), committed, 0o600); err != nil {
+				panic(err)
+			}
+		}
+		cr := h.run(nil, nil, -1, "session", ctl, Hx([]byte(ss.src)), "record")
+		ctlGr, err := os.ReadFile(filepath.Join(ctl, stateFile))
+		os.RemoveAll(ctl)
+		if cr.timeout {
+			c.Count("harness-child-timeout")
+			return
+		}
+		newChunks := parseChunks(cr.lines["CHUNKS"])
+		if err != nil || cr.lines["ERR"] != "0" || cr.lines["LOADERR"] != "0" || !bytes.Equal(ctlGr, joinChunks(newChunks)) {
+			c.Fail("history-control-session-failed", histSpec(append(done, ss)), cr.out)
+			return
+		}
+		scen := resolveScen(ss.scen, newChunks)
+		done = append(done, histSession{ss.src, scen})
+		// every other file present before the session (stale temporary files of aborted saves) must stay as it is
+		var extras []extraFile
+		ents, _ := os.ReadDir(dir)
+		for _, e := range ents {
+			if e.Name() == stateFile {
+				continue
+			}
+			b, err := os.ReadFile(filepath.Join(dir, e.Name()))
+			if err != nil {
+				panic(err)
+			}
+			extras = append(extras, extraFile{e.Name(), string(b)})
+		}
+		q := &pair{name: fmt.Sprintf("%s.s%d", name, i+1), hasOld: hasCommitted, newSrc: ss.src, extras: extras,
+			oldBytes: committed, oldChunks: committedChunks, newBytes: ctlGr, newChunks: newChunks, ok: true,
+			histCtx: ctx, replayCase: histSpec(done)}
+		if strings.HasPrefix(scen, "fsize:") { // a limit at or beyond the file size is no fault
+			if L, _ := strconv.Atoi(strings.TrimPrefix(scen, "fsize:")); L >= len(ctlGr) {
+				scen = "none"
+				done[len(done)-1].scen = scen
+				q.replayCase = histSpec(done)
+			}
+		}
+		nf := len(c.Failures)
+		h.scenarioIn(q, scen, dir)
+		c.Count("history-session=" + strings.SplitN(scen, ":", 2)[0])
+		if len(c.Failures) > nf {
+			return // the first failing session is the finding; later ones would only echo it
+		}
+		if scen == "none" || strings.HasPrefix(scen, "crash:renamed") {
+			committed, committedChunks, hasCommitted = ctlGr, newChunks, true
+		}
+		ctx = "after-" + pointOf(scen)
+	}
+	c.Count("histories")
+}
+
+var abortTemplates = []string{
+	// those that leave the most bytes in the temporary file first
+	"crash:written#1", "crash:write#LAST", "fsize:MOST", "fail:write#LAST:HALF", "crash:write#MID:HALF", "crash:write#MID",
+	"fail:write#MID", "fsize:HALF", "crash:write#1", "crash:created#1", "nofile", "crash:start#1", "crash:renamed#1",
+}
+
+func (h *harness) histories(thorough bool) {
+	small, short := "a=1", "b=2"
+	big := manyBindings("z", 40, 24, "zq")
+	big2 := manyBindings("z", 25, 40, "ZQ") + "k=[1,2,3]"
+	longer := manyBindings("y", 60, 30, "yl")
+	shrink := "del(z000);del(z001);del(z002);del(z003);del(z004);del(z005);del(z006);del(z007);del(z008);del(z009);del(z010);del(z011);z012=0"
+	templates := abortTemplates
+	if thorough { // every write of the interrupted save, whole and torn
+		for k := 1; k <= 41; k++ {
+			templates = append(templates, fmt.Sprintf("crash:write#%d", k), fmt.Sprintf("fail:write#%d:7", k), fmt.Sprintf("crash:write#%d:11", k))
+		}
+		for L := 0; L < 1400; L += 97 {
+			templates = append(templates, fmt.Sprintf("fsize:%d", L))
+		}
+	}
+	for i, ab := range templates {
+		// an interrupted / failed save of a large state, then a complete save of a SHORTER state, then of a longer one
+		h.history(fmt.Sprintf("hA%d", i), []histSession{{small, "none"}, {big, ab}, {short, "none"}, {longer, "none"}})
+		// ... then a complete save of a LONGER state, then a shrinking one
+		h.history(fmt.Sprintf("hB%d", i), []histSession{{small, "none"}, {big, ab}, {longer, "none"}, {"del(y000);del(y001);y002=1", "none"}})
+	}
+	few := []string{"crash:write#MID:HALF", "fsize:MOST", "crash:written#1", "fail:write#LAST"}
+	if thorough {
+		few = templates
+	}
+	for i, ab := range few {
+		// the interrupted save is the very first one (no state file yet)
+		h.history(fmt.Sprintf("hE%d", i), []histSession{{big, ab}, {short, "none"}})
+		// large committed state, interrupted rewrite, then a save that shrinks the state
+		h.history(fmt.Sprintf("hC%d", i), []histSession{{big, "none"}, {big2, ab}, {shrink, "none"}})
+		// two aborted saves in a row (different points), then a short and a long complete save
+		h.history(fmt.Sprintf("hD%d", i), []histSession{{small, "none"}, {big, ab}, {big2, few[(i+1)%len(few)]}, {short, "none"}})
+	}
 }
 
 // ---- syscall positions of the save path, from a reference run under strace
@@ -801,6 +997,7 @@ func (h *harness) straceSweep(p *pair, whole bool) {
 func runC18(c *Ctx) {
 	c.Rule = "child process per (state pair, crash point | fault point): hook crash points start/created/write#k/write#k:n(torn)/written/renamed, " +
 		"hook and hook-free (RLIMIT_FSIZE, RLIMIT_NOFILE, strace error injection) failing calls, strace SIGKILL at the k-th write/openat/renameat, timed SIGKILL; " +
+		"multi-save histories (2-4 sessions in one directory, a save aborted at each point followed by complete saves of shorter and longer states, oracle after every session against a clean control); " +
 		"non-trivial = distinct (pair, point) after which a temporary file was on disk beside the intact previous state file"
 	self, err := os.Executable()
 	if err != nil {
@@ -823,6 +1020,14 @@ func runC18(c *Ctx) {
 	for _, p := range pairs {
 		byName[p.name] = p
 	}
+	if strings.HasPrefix(c.ReplayCase, "history ") {
+		if ss := parseHist(c.ReplayCase); ss != nil {
+			h.history("replay", ss)
+		} else {
+			fmt.Println("bad replay case (want: history <hexsrc>/<scenario>;...)")
+		}
+		return
+	}
 	if c.ReplayCase != "" {
 		f := strings.SplitN(c.ReplayCase, " ", 2)
 		p := byName[f[0]]
@@ -840,6 +1045,7 @@ func runC18(c *Ctx) {
 	for _, p := range pairs {
 		h.hookSweep(p, c.Thorough())
 	}
+	h.histories(c.Thorough())
 	if h.strace == "" {
 		c.Fail("strace-unavailable", "-", "strace not found: hook-free sweeps not run")
 	}
